@@ -95,7 +95,7 @@ class C06(Prop):
                 "null_key": nk, "null_spelling": g.choice(NULLS[nk]), "rows": rows, "textcol": textcol,
                 "wrap": g.random() < 0.2 and nc >= 3, "policy_null": g.choice(["strict", "strict", "none"]),
                 "nkw": neutral_read_kw(g, exclude=("null_policy",)), "engine": g.choice(["numpy", "normal"]), "vers": g.choice([1.2, 2.0]), "case": g.choice(["upper", "upper", "lower", "preserve"]),
-                "channel": draw_read_channel(g, ascii_only=True), "policy": Policy.draw(st.io).to_json(),
+                "channel": draw_read_channel(g, ascii_only=True, used_object_p=0.06), "policy": Policy.draw(st.io).to_json(),
                 "wkw": g.choice([{}, {}, {"version": 1.2}, {"wrap": True}, {"version": 2.0, "wrap": False}, {"fmt": "%.4f"}]),
                 "out": g.choice(["path", "stream", "stringio"])}
 
